@@ -4,11 +4,11 @@ CONSTANTS
   Keys = {"a1", "b1"}
   Ops = {"mcount", "mdel", "mread", "mwrite"}
   MaxCmds = 1
-  MaxLen = 2
+  MaxLen = 3
   DedupKeys = FALSE
   AssembleByArrival = FALSE
-  FoldUnsynchronised = TRUE
-  FailKeys = {}
-  MsetIgnoresChildErrors = FALSE
+  FoldUnsynchronised = FALSE
+  FailKeys = {"b1"}
+  MsetIgnoresChildErrors = TRUE
 INVARIANTS EqualsReference StoreIsReference ChildAtOwner
 CHECK_DEADLOCK FALSE
